@@ -136,7 +136,13 @@ def behaviour_to_steps(states, model, fail_modes, complete=False):
             cur.pop("_z")
             steps.append(cur)
             cur = None
-    if cur is not None and complete and cur["fetch"] != "none":
+    if cur is not None and complete:
+        if cur["fetch"] == "none":
+            # the target lies before the fetch: finish the run with a benign refresh (every key
+            # trusted right now, published and signing)
+            rk = sorted(states[-1][1]["rootKeys"])
+            cur["fetch"] = "answer"
+            cur["z"] = {"keys": rk, "revoked": [], "signedN": rk, "signedR": [], "order": rk}
         for k in ("_atFetch", "_cand", "_z"):
             cur.pop(k)
         cur["exp"] = None
